@@ -74,22 +74,27 @@ Theorem C05_load_without_routines_is_identity : forall p,
 Proof. exact load_without_routines_is_identity. Qed.
 Print Assumptions C05_load_without_routines_is_identity.
 
-(* Every branch, loop exit and break of the compiled code leads where the source says, for every program of the covered
-   statements, if / else, blocks, while / counted / endless loops and breaks, nested to any depth (Lang/Simulation3.v):
-   whatever values the conditions take, when the source semantics says the statement ends normally the machine stands
-   directly behind the statement's code, when it says `break` the machine stands at the END_LOOP of the innermost
-   enclosing loop, and in both cases the evaluation stack and the frames are exactly those the statement was entered
-   with -- every loop that was entered has been left, with nothing dangling. *)
-From Bardolph Require Import Lang.Syntax Lang.Sem Lang.ExprCompile Lang.Simulation Lang.Simulation3.
+(* Every branch, loop exit, break, call and return of the compiled code leads where the source says, for every program of the
+   covered statements, if / else, blocks, while / counted / endless loops, breaks, calls of routines that do not reach themselves
+   and returns, nested to any depth (Lang/Simulation3.v): whatever values the conditions take, when the source semantics says the
+   statement ends normally the machine stands directly behind the statement's code, when it says `break` the machine stands at the
+   END_LOOP of the innermost enclosing loop -- in both cases with the evaluation stack it was entered with and with frames that
+   differ at most in the dictionary of the routine in progress ([fr] forgets that dictionary and nothing else): every loop that was
+   entered has been left, every call that was made has returned, nothing dangling; when it says `return` the machine stands
+   behind the call that entered the routine, the routine's loop frames and call frame gone and the stack as it was. *)
+From Bardolph Require Import Lang.Syntax Lang.Sem Lang.ExprCompile Lang.Simulation Lang.CallFrames Lang.Simulation3.
 
 Theorem C05_structured_control_leads_where_the_source_says :
-  forall rt mt inl st, SimpleB mt inl st ->
-  forall after im ss s sig ss' fuel, in_loop_ok inl after -> sim ss s -> code_at im (m_pc s) (c_stmt rt mt false after st) ->
+  forall rt mt inl inr st, SimpleB rt mt inl inr st ->
+  forall after im ss s sig ss' fuel, routines_loaded rt mt im -> in_loop_ok inl after -> in_ret_ok inr (m_frames s) ->
+  depth_ok (m_frames s) (zlength (m_stack s)) -> sim ss s -> code_at im (m_pc s) (c_stmt rt mt false after st) ->
   Sem.exec rt mt fuel false ss st = ROk sig ss' ->
   (sig = SigNormal /\ exists n s' evs, esteps n im s = Some (s', evs) /\ m_pc s' = m_pc s + zlength (c_stmt rt mt false after st) /\
-                                       (m_stack s', m_frames s') = (m_stack s, m_frames s)) \/
+                                       (m_stack s', fr s') = (m_stack s, fr s)) \/
   (sig = SigBreak /\ exists a n s' evs, after = Some a /\ esteps n im s = Some (s', evs) /\
                                         m_pc s' = m_pc s + zlength (c_stmt rt mt false after st) + a /\
-                                        (m_stack s', m_frames s') = (m_stack s, m_frames s)).
+                                        (m_stack s', fr s') = (m_stack s, fr s)) \/
+  (exists v, sig = SigReturn v /\ exists ret F n s' evs, call_tail (m_frames s) = Some (ret, F) /\ esteps n im s = Some (s', evs) /\
+                                        m_pc s' = ret + 1 /\ m_frames s' = F /\ m_stack s' = m_stack s).
 Proof. exact structured_control_leads_where_the_source_says. Qed.
 Print Assumptions C05_structured_control_leads_where_the_source_says.
